@@ -456,6 +456,10 @@ class Ctx:
             failed = getattr(self, "failed_obligations", [])[:20]
             self.violation(f"{self.obligations - self.discharged} obligation(s) not discharged and no failing input found",
                            {"broken": failed or "see log"}, {"undischarged": True}, found_input=False)
+        if not self.replay and not self.violations and self.cov.get("evaluations", 0) == 0:
+            # a correspondence over zero cases shows nothing
+            self.violation("no case was evaluated against the implementation (correspondence stage produced no cases)",
+                           {"broken": "correspondence stage"}, {"no_cases": True}, found_input=False)
         wall = time.time() - self.t0
         cov = dict(self.cov)
         cov["obligations"] = self.obligations
